@@ -149,4 +149,140 @@ theorem convertDictO_second : ∀ (rp rp' : List (Nat × String)) (l r : List (S
       convertDictO_second rp rp' xs ys hys hn.2, bind, Except.bind, pure, Except.pure]
 end
 
+/-! ### per-degree targets -/
+
+theorem applyTargets_append : ∀ (l1 l2 : List J) (p : Dict),
+    applyTargets (l1 ++ l2) p = applyTargets l1 p >>= applyTargets l2
+  | [], l2, p => by simp [applyTargets, bind, Except.bind, pure, Except.pure]
+  | t :: ts, l2, p => by
+    simp only [List.cons_append, applyTargets]
+    cases h1 : asObj t with
+    | error e => simp [bind, Except.bind]
+    | ok o =>
+      cases h2 : applyTarget p o with
+      | error e => simp [bind, Except.bind, h2]
+      | ok p' =>
+        simp only [bind, Except.bind, h2]
+        have := applyTargets_append ts l2 p'
+        simp only [bind, Except.bind] at this
+        exact this
+
+/-- one generated target `{degree_uid: d, kind: v}` sets exactly `params[kind][d] = v` -/
+theorem applyTarget_generated (p : Dict) (kind d : String) (v : J) (hk : kind ∈ eqTypes) :
+    applyTarget p [("degree_uid", .str d), (kind, v)] = setDegree p kind d v := by
+  simp only [eqTypes, List.mem_cons, List.not_mem_nil, or_false] at hk
+  rcases hk with rfl | rfl | rfl
+  · cases h : setDegree p "per_degree_pch_out_db" d v with
+    | error e => simp [applyTarget, applyKind, Dict.get, Dict.get?, h, bind, Except.bind, pure, Except.pure]
+    | ok q => simp [applyTarget, applyKind, Dict.get, Dict.get?, h, bind, Except.bind, pure, Except.pure]
+  · cases h : setDegree p "per_degree_psd_out_mWperGHz" d v with
+    | error e => simp [applyTarget, applyKind, Dict.get, Dict.get?, h, bind, Except.bind, pure, Except.pure]
+    | ok q => simp [applyTarget, applyKind, Dict.get, Dict.get?, h, bind, Except.bind, pure, Except.pure]
+  · cases h : setDegree p "per_degree_psd_out_mWperSlotWidth" d v with
+    | error e => simp [applyTarget, applyKind, Dict.get, Dict.get?, h, bind, Except.bind, pure, Except.pure]
+    | ok q => simp [applyTarget, applyKind, Dict.get, Dict.get?, h, bind, Except.bind, pure, Except.pure]
+
+/-- replaying the generated targets of one kind rebuilds that kind's degree dict, entry by entry in
+    the original order, and touches no other key -/
+theorem applyTargets_targetsOf (kind : String) (hk : kind ∈ eqTypes) :
+    ∀ (ts pre : Dict) (p : Dict), p.get? kind = some (.obj pre) →
+      (pre.map (·.1) ++ ts.map (·.1)).Nodup →
+      ∃ q, applyTargets (targetsOf kind ts) p = .ok q ∧ q.get? kind = some (.obj (pre ++ ts)) ∧
+        ∀ k, k ≠ kind → q.get? k = p.get? k
+  | [], pre, p, hp, _ => ⟨p, by simp [targetsOf, applyTargets, pure, Except.pure], by simpa using hp, fun _ _ => rfl⟩
+  | (d, v) :: ts, pre, p, hp, hnd => by
+    have hd : d ∉ pre.map (·.1) := by
+      intro hmem
+      have := (List.nodup_append.1 hnd).2.2
+      exact this d hmem d (by simp) rfl
+    have hset : Dict.set pre d v = pre ++ [(d, v)] :=
+      Dict.set_append_of_get?_none pre d v ((Dict.get?_none_iff_not_mem_keys pre d).2 hd)
+    have hstep : applyTarget p [("degree_uid", .str d), (kind, v)] = .ok (p.set kind (.obj (pre ++ [(d, v)]))) := by
+      rw [applyTarget_generated p kind d v hk]
+      simp [setDegree, hp, hset, pure, Except.pure]
+    have hnd' : ((pre ++ [(d, v)]).map (·.1) ++ ts.map (·.1)).Nodup := by
+      simpa [List.map_append, List.append_assoc] using hnd
+    obtain ⟨q, hq, hq1, hq2⟩ := applyTargets_targetsOf kind hk ts (pre ++ [(d, v)]) (p.set kind (.obj (pre ++ [(d, v)])))
+      (Dict.get?_set_same _ _ _) hnd'
+    refine ⟨q, ?_, ?_, ?_⟩
+    · simp only [targetsOf, List.map_cons, applyTargets, asObj, bind, Except.bind, pure, Except.pure, hstep]
+      exact hq
+    · simpa [List.append_assoc] using hq1
+    · intro k hkk
+      rw [hq2 k hkk, Dict.get?_set_other _ _ _ _ (Ne.symm hkk)]
+
+/-- the same when the kind is not yet in `params` (first target creates the dict) -/
+theorem applyTargets_targetsOf_fresh (kind : String) (hk : kind ∈ eqTypes) (ts : Dict) (p : Dict)
+    (hp : p.get? kind = none) (hne : ts ≠ []) (hnd : (ts.map (·.1)).Nodup) :
+    ∃ q, applyTargets (targetsOf kind ts) p = .ok q ∧ q.get? kind = some (.obj ts) ∧
+      ∀ k, k ≠ kind → q.get? k = p.get? k := by
+  cases ts with
+  | nil => exact absurd rfl hne
+  | cons dv ts =>
+    obtain ⟨d, v⟩ := dv
+    have hstep : applyTarget p [("degree_uid", .str d), (kind, v)] = .ok (p.set kind (.obj [(d, v)])) := by
+      rw [applyTarget_generated p kind d v hk]
+      simp [setDegree, hp, pure, Except.pure]
+    obtain ⟨q, hq, hq1, hq2⟩ := applyTargets_targetsOf kind hk ts [(d, v)] (p.set kind (.obj [(d, v)]))
+      (Dict.get?_set_same _ _ _) (by simpa using hnd)
+    refine ⟨q, ?_, by simpa using hq1, ?_⟩
+    · simp only [targetsOf, List.map_cons, applyTargets, asObj, bind, Except.bind, pure, Except.pure, hstep]
+      exact hq
+    · intro k hkk
+      rw [hq2 k hkk, Dict.get?_set_other _ _ _ _ (Ne.symm hkk)]
+
+/-! ### design bands, per-frequency lists -/
+
+theorem bandOf_generated (d : String) (v : J) :
+    bandOf (J.obj [("degree_uid", .str d), ("design_bands", v)]) = .ok (d, v) := by
+  have h : (("degree_uid" : String) == "design_bands") = false := by decide
+  simp [bandOf, asObj, Dict.get, Dict.get?, h, bind, Except.bind, pure, Except.pure]
+
+theorem collectBands_generated : ∀ (ts pre : Dict), (pre.map (·.1) ++ ts.map (·.1)).Nodup →
+    collectBands (ts.map (fun dv => J.obj [("degree_uid", .str dv.1), ("design_bands", dv.2)])) pre
+      = .ok (pre ++ ts)
+  | [], pre, _ => by simp [collectBands, pure, Except.pure]
+  | (d, v) :: ts, pre, hnd => by
+    have hd : d ∉ pre.map (·.1) := by
+      intro hmem
+      exact (List.nodup_append.1 hnd).2.2 d hmem d (by simp) rfl
+    have hset : Dict.set pre d v = pre ++ [(d, v)] :=
+      Dict.set_append_of_get?_none pre d v ((Dict.get?_none_iff_not_mem_keys pre d).2 hd)
+    have hnd' : ((pre ++ [(d, v)]).map (·.1) ++ ts.map (·.1)).Nodup := by
+      simpa [List.map_append, List.append_assoc] using hnd
+    have ih := collectBands_generated ts (pre ++ [(d, v)]) hnd'
+    simp only [List.map_cons, collectBands, bandOf_generated, bind, Except.bind]
+    rw [hset]
+    simpa [List.append_assoc] using ih
+
+/-- reading a column back from the zipped list of two-key dicts -/
+theorem column_zipDicts_fst (ka kb : String) (hne : ka ≠ kb) : ∀ (a b : List J), a.length = b.length →
+    column ka (zipDicts ka kb a b) = .ok a
+  | [], [], _ => by simp [zipDicts, column, pure, Except.pure]
+  | x :: xs, y :: ys, h => by
+    have ih := column_zipDicts_fst ka kb hne xs ys (by simpa using h)
+    simp only [zipDicts] at ih
+    simp [zipDicts, column, asObj, Dict.get, Dict.get?, ih, bind, Except.bind, pure, Except.pure]
+  | [], _ :: _, h => by simp at h
+  | _ :: _, [], h => by simp at h
+
+theorem column_zipDicts_snd (ka kb : String) (hne : ka ≠ kb) : ∀ (a b : List J), a.length = b.length →
+    column kb (zipDicts ka kb a b) = .ok b
+  | [], [], _ => by simp [zipDicts, column, pure, Except.pure]
+  | x :: xs, y :: ys, h => by
+    have ih := column_zipDicts_snd ka kb hne xs ys (by simpa using h)
+    simp only [zipDicts] at ih
+    simp [zipDicts, column, asObj, Dict.get, Dict.get?, hne, ih, bind, Except.bind, pure, Except.pure]
+  | [], _ :: _, h => by simp at h
+  | _ :: _, [], h => by simp at h
+
+theorem zipDicts_ne_nil (ka kb : String) (a b : List J) (ha : a ≠ []) (h : a.length = b.length) :
+    zipDicts ka kb a b ≠ [] := by
+  cases a with
+  | nil => exact absurd rfl ha
+  | cons x xs =>
+    cases b with
+    | nil => simp at h
+    | cons y ys => simp [zipDicts]
+
 end Gnpy.Yang
